@@ -530,6 +530,25 @@ func ruleDRMGate(c *eng.Ctx) {
 				return isInd
 			})
 			if !exhausted {
+				// the scan as a cursor that drops one member per trip: exhausted where len(rest) > 0 is false
+				exhausted = eng.GuardedBy(drm, b, func(f eng.Fact) bool {
+					op, x, y, ok := f.Cmp()
+					if !ok {
+						return false
+					}
+					call, isCall := x.(*ssa.Call)
+					if !isCall || eng.CalleeName(call) != "builtin:len" {
+						return false
+					}
+					ph, isPhi := call.Call.Args[0].(*ssa.Phi)
+					if !isPhi || !isLoopCarried(ph) {
+						return false
+					}
+					k, isC := eng.ConstInt(y)
+					return isC && k == 0 && (op == token.LEQ || op == token.EQL)
+				})
+			}
+			if !exhausted {
 				nilInLoop = true
 			}
 		}
@@ -686,6 +705,14 @@ func fullFileScan(fn *ssa.Function) (n int, bad []string, pos token.Pos) {
 			return
 		}
 		if _, isInd := eng.Induction(ia.Index); !isInd {
+			// `for rest := zr.File; len(rest) > 0; rest = rest[1:]` with rest[0]: a full scan when it starts at the list
+			if base, isCur := eng.ShrinkingCursor(ia); isCur {
+				n++
+				if fr, ok := eng.LoadOfField(base); !ok || fr.Field != "File" {
+					bad = append(bad, "iterates a derived list, not the archive's member list")
+					pos = ia.Pos()
+				}
+			}
 			return
 		}
 		n++
